@@ -159,9 +159,13 @@ func solveOne(o *Obligation, watch []string, opts solveOpts, idx int) {
 		secs         float64
 	}
 	ch := make(chan res, len(solvers))
+	fullMs := opts.fullMs
+	if o.CapMs > 0 && o.CapMs < fullMs {
+		fullMs = o.CapMs
+	}
 	for _, s := range solvers {
 		go func(s solverCfg) {
-			v, out, secs := runSolver(s, file, opts.fullMs)
+			v, out, secs := runSolver(s, file, fullMs)
 			ch <- res{v, out, s.name, secs}
 		}(s)
 	}
